@@ -24,13 +24,13 @@ def base_world():
              W.l('/a/d/l', 'f', 102), W.l('/a/d/ld', 's', 103), W.l('/a/d/dl', 'nowhere', 104), W.l('/a/d/labs', '/a/d/s', 105),
              W.d('/a/e', 0o755), W.d('/a/ne'), W.f('/a/ne/x', 'X', 0o644, 106), W.d('/a/st', 0o1777), W.f('/a/file', 'FILE', 0o644, 107),
              W.d('/v/b'), W.f('/v/b/x', 'VX', 0o644, 108), W.d('/v/b/t'), W.f('/v/b/t/u', 'U', 0o644, 109), W.l('/v/b/lk', 'x', 110),
-             W.l('/a/lv', '/v/b', 111), W.l('/a/loop', 'loop', 112), W.d('/a/d/s/deep/er'), W.l('/a/d/s/deep/up', '../..', 113)]
+             W.l('/a/lv', '/v/b', 111), W.f('/a/crlf', 'A\r\nB\rC\n\xc3\xa9', 0o644, 114), W.l('/a/loop', 'loop', 112), W.d('/a/d/s/deep/er'), W.l('/a/d/s/deep/up', '../..', 113)]
     return W.W(mounts=['/', '/v'], cwd='/a', nodes=nodes)
 
 
 PATHS = ['/', '/a', '/a/', '/a/d', '/a/d/', '/a/d/f', '/a/d/f/', '/a/d/l', '/a/d/l/', '/a/d/ld', '/a/d/ld/', '/a/d/dl', '/a/d/dl/', 'd/f', 'd/../d/s',
          './d', 'd/s/..', 'd/ld/g', 'd/ld/../f', '/a/lv', '/a/lv/x', '/a/lv/', '/v', '/v/', '/v/b', '/v/b/..', '/a/loop', '/a/loop/x', 'missing',
-         'missing/x', 'd/f/x', '', '.', '..', '../..', '/a/d/s/deep/up', '/a/d/s/deep/up/f', '/a/d/labs/g', '//a//d///f', '/a/./d/./f', 'n' * 255, 'n' * 256]
+         'missing/x', 'd/f/x', '', '.', '..', '../..', '/a/d/s/deep/up', '/a/d/s/deep/up/f', '/a/d/labs/g', '//a//d///f', '/a/./d/./f', 'n' * 255, 'n' * 256, '/a/crlf']
 
 
 def op_corpus():
